@@ -22,7 +22,11 @@ func (o Ops) opaque(op string, w int, hi uint64, args ...*Int) *Lin {
 	for _, a := range args {
 		from = append(from, a.Lin)
 	}
-	return LinAtom(w, o.In.Derived(key, w, hi, from...))
+	a := o.In.Derived(key, w, hi, from...)
+	if a.Op == "" {
+		a.Op, a.Args = op, from
+	}
+	return LinAtom(w, a)
 }
 
 func itoa(i int) string { return fmt.Sprintf("%d", i) }
@@ -345,7 +349,18 @@ func (o Ops) Convert(a *Int, w int, fromSigned, toSigned bool) *Int {
 		} else if a.Lo>>uint(w) == a.Hi>>uint(w) {
 			lo, hi = a.Lo&m, a.Hi&m
 		}
-		return o.mk(w, toSigned, bv, lo, hi, linTrunc(a.Lin, w))
+		lin := linTrunc(a.Lin, w)
+		// (x & m) narrowed to w bits is x narrowed when m keeps all of the low w bits
+		if len(a.Lin.T) == 1 && a.Lin.C == 0 && a.Lin.T[0].K == 1 {
+			if at := a.Lin.T[0].A; at.Op == "and" && len(at.Args) == 2 {
+				for i := 0; i < 2; i++ {
+					if c, other := at.Args[i], at.Args[1-i]; c.IsConst() && c.C&m == m && other.W >= w {
+						lin = linTrunc(other, w)
+					}
+				}
+			}
+		}
+		return o.mk(w, toSigned, bv, lo, hi, lin)
 	}
 	// widen
 	bv := make([]Bit, w)
